@@ -267,15 +267,28 @@ void cstl_hash_resize(struct cstl_hash * const h,
                       const size_t count, cstl_hash_func_t * const hash)
 {
     if (count > 0) {
+        /*
+         * the request must be compared with the geometry that the
+         * table is headed for. if a rehash is in progress, that is
+         * the pending geometry, not the current one
+         */
+        size_t cur_count = h->bucket.count;
+        cstl_hash_func_t * cur_hash = h->bucket.hash;
+
+        if (h->bucket.rh.hash != NULL) {
+            cur_count = h->bucket.rh.count;
+            cur_hash = h->bucket.rh.hash;
+        }
+
         if (count > h->bucket.capacity) {
             __cstl_hash_set_capacity(h, count);
         }
 
         if (h->bucket.at != NULL
             && count <= h->bucket.capacity
-            && (count != h->bucket.count
+            && (count != cur_count
                 || (hash != NULL
-                    && hash != h->bucket.hash))) {
+                    && hash != cur_hash))) {
             unsigned int i;
 
             /*
